@@ -4,3 +4,61 @@ LEVEL_TEXT = ("Deductive: CHOOSE (arities to 5), INDEX on one-dimensional arrays
               "MATCH type 0 on numeric arrays of any length (loop invariant).  Bounded: MATCH types 1/-1 on all sorted arrays of length <= 5 "
               "over -3..3, text lookups through fnmatch, larger 2-D shapes.")
 TRUSTED = ['fnmatch.fnmatch (assumed library contract)', 'array literal construction: grammar contracts p_array / p_expseq_* (C05)']
+
+
+def history_case(seed_words, edits, probes):
+    """ one host list searched, edited in place by the host, searched again ...; first failure or None """
+    import fnmatch
+    from pyvc import e2e
+    p = e2e.new_parser()
+    ws = list(seed_words)
+    p.set_variable('ws', ws)
+    p.on('callRangeValue', lambda a, b, setter: setter(ws))
+    for step in range(len(edits) + 1):
+        for x in probes:
+            if isinstance(x, str):
+                hits = [j for j, w in enumerate(ws) if isinstance(w, str) and fnmatch.fnmatch(w.lower(), x.lower())]
+            else:
+                hits = [j for j, w in enumerate(ws) if not isinstance(w, str) and w == x]
+            lit = '"%s"' % x if isinstance(x, str) else repr(x)
+            for arr in ('ws', 'A1:A9'):
+                r = p.parse('MATCH(%s,%s,0)' % (lit, arr))
+                want = {'result': hits[0] + 1, 'error': None} if hits else {'result': None, 'error': '#N/A'}
+                if r != want:
+                    return step, 'MATCH(%s,%s,0) over %r: expected %r got %r' % (lit, arr, ws, want, r)
+                if hits:
+                    r = p.parse('INDEX(%s,MATCH(%s,%s,0))' % (arr, lit, arr))
+                    if r != {'result': ws[hits[0]], 'error': None}:
+                        return step, 'INDEX(%s,MATCH(%s,%s,0)) over %r: expected %r got %r' % (arr, lit, arr, ws, ws[hits[0]], r)
+        if step < len(edits):
+            i, v = edits[step]
+            ws[i % len(ws)] = v           # the host edits a cell of its own list
+    return None
+
+
+def extra(report, env):
+    import random
+    from props.common import bounded
+    rng = random.Random(env['seed'])
+    words = ['apple', 'Apple', 'pear', 'plum', 'fig', 'figs', 'kiwi', 'lime', 'PLUM', 'peach', 3, 7, 2.5]
+    probes_pool = ['apple', 'pear', 'p*', 'fig?', '?i*', 'plum', 'kiwi', 'zzz', 3, 7, 2.5, 4]
+    cases = 0
+    fails = []
+    for _ in range(60 if env['tier'] == 'quick' else 1000):
+        n = rng.randint(1, 7)
+        seed_words = [rng.choice(words) for _ in range(n)]
+        edits = [(rng.randrange(n), rng.choice(words)) for _ in range(rng.randint(1, 4))]
+        probes = [rng.choice(probes_pool) for _ in range(3)]
+        cases += (len(edits) + 1) * len(probes) * 2
+        r = history_case(seed_words, edits, probes)
+        if r is not None and len(fails) < 5:
+            fails.append({'formula': 'MATCH / INDEX over a host list', 'seed_words': seed_words, 'edits': edits, 'probes': probes,
+                          'detail': 'after %d in-place edits by the host: %s' % r})
+    bounded(report, 'C18.histories', 'MATCH(x,array,0) and INDEX(array,MATCH(x,array,0)) over a host list (variable and range) that the host edits in place '
+            'between evaluations: seeded lists of 1..7 words / numbers, 1..4 edits, 3 probes (text with wildcards, numbers)', cases, fails)
+
+
+def replay(rp):
+    r = history_case(rp['seed_words'], [tuple(e) for e in rp['edits']], rp['probes'])
+    print('host list %r, edits %r, probes %r: %s' % (rp['seed_words'], rp['edits'], rp['probes'], 'all as stated' if r is None else 'after %d edits: %s' % r))
+    return 0 if r is None else 1
